@@ -137,6 +137,12 @@ def make_plan(rng, tier, index):
     plan["monitor"] = True
     plan["logger"] = True
     plan["supply_targets"] = rng.random() < 0.6
+    if name in ("nature_dqn", "ddqn", "ddqn_per") and rng.random() < 0.6:
+        # boundary: target-copy period that is not a multiple of the online-update period (copy points without an online update)
+        uf = rng.choice([2, 3])
+        plan["cfg"]["update_frequency"] = uf
+        plan["cfg"]["target_update_frequency"] = rng.choice([x for x in (2, 3, 5, 7) if x % uf])
+        plan["cfg"]["learning_starts"] = rng.choice([0, 2])
     if rng.random() < (0.7 if name in ("mrq", "td7") else 0.4) and trainsim.ADAPTERS[name].has_global_step:
         # resume: the update cadence must continue from the returned counter, not restart
         T = plan["chain"][0]["total_timesteps"]
